@@ -584,10 +584,40 @@ def oracle_c17(line, m, impl, model):
 # ------------------------------------------------------------------------------------------------
 # property-specific generators
 
+def degenerate_unwrap_cases(rng, tier, prefix="u"):
+    """ready unwrap-block elements with every small layout between (and around) the tags; the
+    reference decides which of them cannot be unwrapped (then nothing may change)"""
+    import itertools
+    cases, meta = [], {}
+    atoms = ["\n", "x", " ", "あ", "\t"]
+    L = 4 if tier == "quick" else 5
+    k = 0
+    e = G.EXPIRED
+    for ds, de in [("<", ">"), ("/* <", "> */")]:
+        for n in range(0, L + 1):
+            for t in itertools.product(atoms, repeat=n):
+                between = "".join(t)
+                if between.count("\n") > 3:
+                    continue
+                for pre, post in (("", ""), ("a\n", "\nb"), ("a ", " b\n"), ("\n", "\n")):
+                    if n >= 4 and (pre, post) != ("a\n", "\nb") and rng.random() < 0.6:
+                        continue
+                    for tag, cfg in ((f"tl {e} unwrap-block", G.Cfg()), ('rm unwrap-block name="x"', G.Cfg(targets=("x",)))):
+                        if n >= 3 and tag.startswith("rm") and rng.random() < 0.7:
+                            continue
+                        src = pre + ds + tag + de + between + ds + "/" + tag.split(" ")[0] + de + post
+                        cid = f"{prefix}{k}"
+                        k += 1
+                        cases.append(G.dcase(cid, ds, de, src, cfg))
+                        meta[cid] = {"stream": "degenerate-unwrap"}
+    return cases, meta
+
+
 def gen_front(rng, tier, pairs=None, exh_len=None):
     n = 1500 if tier == "quick" else 20000
     L = exh_len or (4 if tier == "quick" else 5)
-    pairs = pairs or [("<", ">"), ("/* <", "> */"), ("aab", "bba"), ("|", "|"), ("《", "》"), ("<!-- <", "> -->"), ("// --", "-- //"), ("<<", ">>")]
+    pairs = pairs or [("<", ">"), ("/* <", "> */"), ("aab", "bba"), ("|", "】】"), ("《", "》"), ("<!-- <", "> -->"), ("// --", "-- //"), ("<<", ">>"),
+                      ("<", "-->"), ("[", "]]]]"), ("|", "|"), ("{{{", "}")]
     ex = exhaustive_cases(rng, "x", pairs[:4] if tier == "quick" else pairs, L)
     # strings over the delimiter characters plus one filler: deeper
     ex2c, ex2m = [], {}
@@ -1065,7 +1095,7 @@ def gen_c11(rng, tier):
             kc = "KF1 first-line block: indentation of the tag line is not tidied at the start of the file"
         meta[cid] = {"stream": "unwrap", "expect": ex, "known_class": kc, "why": "unwrap-block four-line removal and dedent"}
     docs = doc_cases(rng, 800 if tier == "quick" else 8000, "d", p_unwrap=0.6, p_mut=0.0)
-    return merge(corpus_cases(), (cases, meta), docs)
+    return merge(corpus_cases(), (cases, meta), docs, degenerate_unwrap_cases(rng, "quick", "g"))
 
 
 def oracle_c11(line, m, impl, model):
@@ -1615,7 +1645,8 @@ _P = {
               nontrivial_tok),
     "C02": mk(lambda rng, t: gen_docs(rng, t, p_mut=0.3), DOC_STAGES_CLEAN, oracle_c02, "no over-removal", RULE_DOC),
     "C03": mk(lambda rng, t: gen_docs(rng, t, p_mut=0.3), DOC_STAGES_CLEAN, oracle_c03, "no under-removal", RULE_DOC),
-    "C04": mk(lambda rng, t: gen_docs(rng, t, kinds=["pending_tl", "pending_rm", "skip", "unreg"], p_mut=0.5, safe=False),
+    "C04": mk(lambda rng, t: merge(gen_docs(rng, t, kinds=["pending_tl", "pending_rm", "skip", "unreg"], p_mut=0.5, safe=False),
+                                   degenerate_unwrap_cases(rng, t)),
               ["tok", "tag", "tree", "markers", "clean"], oracle_c04, "no-op identity", RULE_DOC, nontrivial_tok),
     "C05": mk(gen_c05, ["evalt", "clean"], oracle_c05, "expiry decision", "boundary grid (±2 s around the instant, offsets −12:00…+14:00 step 15 min, both spellings), every malformed class, lenient forms, random grid; all T cases count as non-trivial", nontrivial_tok),
     "C06": mk(gen_c06, ["evalm", "markers", "clean", "tag", "cli"], oracle_c06, "marker and skip decision", "name/target pool products, attribute permutations, tag-name configurations, AST documents", nontrivial_tok),
